@@ -179,10 +179,19 @@ Definition update (base over : list (str * N)) : list (str * N) :=
 Definition final_args (tmpl page section : list (str * N)) : list (str * N) :=
   update tmpl (update page section).
 
-(* _get_cache_kw: the arguments for a defname are frozen at first use *)
-Definition get_cache_kw (regions : list (str * list (str * N))) (defname : str) (tmpl kw : list (str * N))
-  : list (str * N) * list (str * list (str * N)) :=
-  match assocS defname regions with
-  | Some a => (a, regions)
-  | None => let a := update tmpl kw in (a, (defname, a) :: regions)
+(* _get_cache_kw: a render ([rendering] = true, from _ctx_get_or_create) always computes its own arguments and
+   records them for its defname; an invalidate_*() ([rendering] = false, which brings no arguments of its own) uses the
+   recorded ones, or the template-level ones when the section has not rendered yet -- and records nothing *)
+Fixpoint remove_key (k : str) (l : list (str * list (str * N))) : list (str * list (str * N)) :=
+  match l with
+  | [] => []
+  | (k', v) :: r => if str_eqb k k' then remove_key k r else (k', v) :: remove_key k r
   end.
+
+Definition get_cache_kw (regions : list (str * list (str * N))) (defname : str) (rendering : bool) (tmpl kw : list (str * N))
+  : list (str * N) * list (str * list (str * N)) :=
+  if rendering then let a := update tmpl kw in (a, (defname, a) :: remove_key defname regions)
+  else match assocS defname regions with
+       | Some a => (a, regions)
+       | None => (update tmpl kw, regions)
+       end.
